@@ -482,7 +482,7 @@ fn rtu_framable(unit: u8, p: &[u8]) -> bool {
     frames.len() == 1 && end == StreamEnd::NeedMore(0)
 }
 
-fn c04_case(s: &mut Sess, req: &Req, reply: &[u8], st: &mut Stats) -> Vec<(String, String)> {
+fn c04_case(s: &mut Sess, req: &Req, reply: &[u8], style: Style, st: &mut Stats) -> Vec<(String, String)> {
     let mut out = vec![];
     let rtu = s.h.rtu;
     let unit = 7u8;
@@ -493,7 +493,7 @@ fn c04_case(s: &mut Sess, req: &Req, reply: &[u8], st: &mut Stats) -> Vec<(Strin
     if reply.len() > 253 {
         return out;
     }
-    let id = match s.h.submit(req, unit, 1000, Style::Future) {
+    let id = match s.h.submit(req, unit, 1000, style) {
         Ok(id) => id,
         Err(e) => {
             out.push(("MACHINERY:c04-request-rejected".into(), format!("{e:?}")));
@@ -732,20 +732,26 @@ pub fn check_c04(tier: &str) -> i32 {
         "C04",
         tier,
         "exploration",
-        "for every request kind and boundary range one transaction per reply PDU of the stated reply space (function byte x length x filler, all 1-byte deviations, truncations/extensions, byte-count values, echo variations, exception replies) on the production client loop (TCP; RTU for PDUs that form one RTU frame); the request's result is compared with the reference reply decoder and the session must stay usable. distinct = distinct (request kind, expected class, observed result) triples",
+        "for every request kind and boundary range one transaction per reply PDU of the stated reply space (function byte x length x filler, all 1-byte deviations, truncations/extensions, byte-count values, echo variations, exception replies) on the production client loop (TCP with the future-based and the callback-based API; RTU for PDUs that form one RTU frame); the request's result is compared with the reference reply decoder and the session must stay usable. distinct = distinct (request kind, expected class, observed result) triples",
     );
     let thorough = rep.thorough();
     let reqs = c04_requests();
-    let jobs: Vec<(bool, usize)> = [false, true].iter().flat_map(|r| (0..reqs.len()).map(move |i| (*r, i))).collect();
+    // both API styles: the future-based one collects the values itself, the callback-based one hands
+    // the application an iterator over the reply
+    let mut jobs: Vec<(bool, usize, Style)> = [false, true].iter().flat_map(|r| (0..reqs.len()).map(move |i| (*r, i, Style::Future))).collect();
+    jobs.extend((0..reqs.len()).map(|i| (false, i, Style::Callback)));
     let st = parallel(jobs.len(), |j, st| {
-        let (rtu, ri) = jobs[j];
+        let (rtu, ri, style) = jobs[j];
+        if style == Style::Callback {
+            st.class("callback-style");
+        }
         let req = &reqs[ri];
         let replies = c04_replies(req, thorough && !rtu);
         let mut s = Sess::new(rtu);
         for rp in &replies {
             st.evaluations += 1;
             let describe = || ("c04".to_string(), format!("{} reply {}", short(req), hex(rp)), json!({"kind": "c04", "rtu": rtu, "req": req_to_json(req), "reply": crate::checks::server_family::to_hex(rp)}));
-            let problems = crate::sim::watchdog::guard(&describe, || c04_case(&mut s, req, rp, st));
+            let problems = crate::sim::watchdog::guard(&describe, || c04_case(&mut s, req, rp, style, st));
             st.observe(&(req.fc(), rp.len().min(8), rp.first().copied(), problems.len()));
             let failed = !problems.is_empty();
             for (sig, desc) in problems {
@@ -778,5 +784,11 @@ pub fn replay_c04(v: &serde_json::Value) -> Vec<(String, String)> {
     let reply = crate::checks::server_family::from_hex(v["reply"].as_str().unwrap());
     let mut s = Sess::new(rtu);
     let mut st = Stats::default();
-    c04_case(&mut s, &req, &reply, &mut st)
+    // a replayed case is run through both API styles
+    let mut out = c04_case(&mut s, &req, &reply, Style::Future, &mut st);
+    if !rtu {
+        let mut s2 = Sess::new(rtu);
+        out.extend(c04_case(&mut s2, &req, &reply, Style::Callback, &mut st));
+    }
+    out
 }
